@@ -37,8 +37,13 @@ def hashy_program(seed):
     # function values: their rendering is not specified, but it must be the same on every run
     out += [A.FuncStmt("named", [V("p")], False, [A.Return(V("p"))]), A.pr(V("named")), A.pr(A.FuncE([], False, [])), A.pr(V("print")),
             A.pr(A.lst(A.FuncE([V("q")], False, []), A.Prop(S("s"), "len", True))), A.pr(A.obj(("f", V("named"))))]
-    kind = r.randrange(4)
-    if kind == 0:
+    kind = r.randrange(5)
+    if kind == 4:
+        # an undefined name equally close to many declared ones (anything derived from the scope table must not depend on hash order)
+        for suffix in "abcdefgh":
+            out.append(A.Declare(V("total_" + suffix), I(1)))
+        out.append(A.pr(V("total_" + r.choice("xyz"))))
+    elif kind == 0:
         out.append(A.Declare(A.ObjectE([A.Pair(S(k), V("u")) for k in keys[:3]]), V("big")))       # duplicate name in one pattern
     elif kind == 1:
         out.append(A.Declare(A.ObjectE([A.Pair(S("nope1"), V("p1")), A.Pair(S("nope2"), V("p2"))]), V("rest")))   # two missing keys: which is reported?
